@@ -183,7 +183,8 @@ def mk_rows(ctx, stable, e, simplex_f=True):
     leaves it for a phase without mobility model), chosen by a symbolic bit per phase"""
     p = len(stable)
     M = ctx.reals("M", (p, e), (0.2, 3.0))
-    und = [ctx.boolean("undef_%s" % ph) for ph in stable]
+    bit = {ph: ctx.boolean("undef_%s" % ph) for ph in dict.fromkeys(stable)}      # one bit per phase name
+    und = [bit[ph] for ph in stable]       # a name may be stable as several composition sets (miscibility gap)
     for i in range(p):
         for j in range(e):
             ctx.assume(M[i, j] > 0)
@@ -287,8 +288,9 @@ BIG = 1.0e6      # backend values are taken from (0, BIG): keeps solver models i
 
 def mk_backend(ctx, therm, stable, log, undef=True):
     """thermodynamic backend as uninterpreted functions of the point (x, T); arrays in alphabetical element order
-    (pycalphad's convention).  The stable phases (names, order) are fixed per harness parameter set; which of them
-    have a mobility model is a symbolic bit per phase."""
+    (pycalphad's convention).  The stable composition sets (names, order; a name may occur twice = miscibility gap,
+    each set with its own amounts/compositions/mobilities) are fixed per harness parameter set; which phase names
+    have a mobility model is a symbolic bit per name."""
     els = sorted(therm.elements[:-1])
     has_model = {ph: (ctx.neg(ctx.boolean("undef_%s" % ph)) if (ph in stable and undef) else True) for ph in therm.phases}
     cs_key = {}
@@ -296,25 +298,25 @@ def mk_backend(ctx, therm, stable, log, undef=True):
     def getEq(x, T, gExtra=0, precPhase=None):
         key = [xi for xi in np.atleast_1d(x)] + [T]
         log.append(key)
-        raw = [ctx.uf("NP_%s" % ph, *key, rng=(0.1, 1.0)) for ph in stable]
+        raw = [ctx.uf("NP_%d%s" % (i, ph), *key, rng=(0.1, 1.0)) for i, ph in enumerate(stable)]
         for r in raw:
             ctx.assume(r > 0, "backend contract: stable phases have positive amount"); ctx.assume(r < BIG)
         tot = sum(raw)
         NP = [r / tot for r in raw]
         cs = []
         for i, ph in enumerate(stable):
-            X = [ctx.uf("X_%s_%s" % (ph, el), *key, rng=(0.1, 1.0)) for el in els]
+            X = [ctx.uf("X_%d%s_%s" % (i, ph, el), *key, rng=(0.1, 1.0)) for el in els]
             for v in X:
                 ctx.assume(v > 0, "backend contract: positive site fractions"); ctx.assume(v < BIG)
             cs.append(_CS(ph, els, NP[i], X))
-            cs_key[id(cs[-1])] = (cs[-1], key)
+            cs_key[id(cs[-1])] = (cs[-1], key, i)
         MU = np.array([[ctx.uf("MU_%s" % el, *key, rng=(-2.0, 2.0)) for el in els]])
         return _Wks(MU, cs)
 
     def mob_from_cs(cs, callables, correction=None, parameters={}):
         ph = cs.phase_record.phase_name
-        key = cs_key[id(cs)][1]
-        vals = [ctx.uf("MOB_%s_%s" % (ph, el), *key, rng=(0.2, 3.0)) for el in els]
+        _, key, i = cs_key[id(cs)]
+        vals = [ctx.uf("MOB_%d%s_%s" % (i, ph, el), *key, rng=(0.2, 3.0)) for el in els]
         for v in vals:
             ctx.assume(v > 0, "backend contract: mobilities are positive"); ctx.assume(v < BIG)
         return np.array(vals)
@@ -362,15 +364,15 @@ def e2e(ctx, rule="wiener upper", mode="predefined", arg="BETA", db=3, stable=("
     avg = lambda Mx, fx: hp.homogenizationFunction(np.array(Mx), np.array(fx), labyrinth_factor=hp.labyrinthFactor)
     for k in range(npts):
         key = list(pts[k]) + [T]
-        raw = [ctx.uf("NP_%s" % ph, *key, rng=(0.1, 1.0)) for ph in stable]
+        raw = [ctx.uf("NP_%d%s" % (i, ph), *key, rng=(0.1, 1.0)) for i, ph in enumerate(stable)]
         tot = sum(raw)
         f0 = np.array([r / tot for r in raw])
         rows = []
         for i, ph in enumerate(stable):
-            X = {el: ctx.uf("X_%s_%s" % (ph, el), *key, rng=(0.1, 1.0)) for el in els}
+            X = {el: ctx.uf("X_%d%s_%s" % (i, ph, el), *key, rng=(0.1, 1.0)) for el in els}
             usum = functools.reduce(operator.add, [X[el] for el in sub])
             if not und_row[i]:
-                rows.append([ctx.uf("MOB_%s_%s" % (ph, el), *key, rng=(0.2, 3.0)) * (X[el] / usum) for el in elements])
+                rows.append([ctx.uf("MOB_%d%s_%s" % (i, ph, el), *key, rng=(0.2, 3.0)) * (X[el] / usum) for el in elements])
             else:
                 rows.append([ctx.const(-1.0) for el in elements])
         M0 = np.array(rows)
@@ -441,6 +443,9 @@ _E2E_Q = [
     _e("lab", "predefined", "BETA", ["BETA", "ALPHA"], pts=_SAME2, labfac=2),
     _e("lab", "none", None, ["GAMMA", "ALPHA"], pts=_SAME2, labfac=2, cache=True),
     _e("lab", "majority", None, ["ALPHA", "BETA"], pts=_SAME2, labfac=2, undef=False),
+    # the excluded phase is stable as two composition sets with the same name and different mobilities
+    _e("wiener upper", "exclude", ["GAMMA"], ["GAMMA", "ALPHA", "GAMMA"], pts=_SAME2),
+    _e("lab", "exclude", ["ALPHA"], ["BETA", "ALPHA", "ALPHA"], labfac=2, cache=False),
 ]
 _E2E_T = [_e(r, "predefined", a, st, elements=els, cache=c, pts=x)
           for r, c in (("wiener upper", True), ("lab", False))
@@ -448,6 +453,8 @@ _E2E_T = [_e(r, "predefined", a, st, elements=els, cache=c, pts=x)
           for els, x in ((("NI", "AL"), _SAME2), (("CR", "AL", "NI"), _T3x3))][::2] + \
          [_e(r, "exclude", ex, st, pts=_SAME2) for r in ("wiener upper", "lab") for ex in (["GAMMA"], ["ALPHA", "GAMMA"])
           for st in (["GAMMA"], ["BETA", "ALPHA"], ["BETA", "GAMMA", "ALPHA"])] + \
+         [_e("wiener upper", "exclude", ex, st, pts=_T3x3 if len(st) > 2 else _DIFF2, elements=("CR", "AL", "NI") if len(st) > 2 else ("NI", "AL")) for ex, st in
+          ((["GAMMA"], ["GAMMA", "GAMMA"]), (["BETA", "GAMMA"], ["GAMMA", "BETA", "GAMMA"]), (["ALPHA"], ["GAMMA", "ALPHA", "GAMMA"]))] + \
          [_e(r, "majority", None, st, pts=x) for r in ("wiener upper",) for st, x in ((["GAMMA"], _DIFF2), (["BETA", "ALPHA"], _DIFF2), (["BETA", "GAMMA", "ALPHA"], ((0.3,),)))] + \
          [_e(r, m, a, st, undef=False) for r in ("wiener lower", "hashin upper", "hashin lower") for m, a in (("predefined", "BETA"), ("majority", None))
           for st in (["BETA"], ["ALPHA", "BETA"])] + \
@@ -481,11 +488,18 @@ HARNESSES = [
                              [{"mode": "predefined", "arg": "GAMMA", "db": 3, "stable": st} for st in (["GAMMA"], ["ALPHA", "GAMMA"], ["BETA", "ALPHA"])] +
                              [{"mode": "exclude", "arg": ex, "db": 3, "stable": st} for ex, st in ((["GAMMA"], ["GAMMA"]), (["GAMMA"], ["ALPHA", "GAMMA"]), (["GAMMA"], ["ALPHA", "BETA"]),
                                                                                                     (["BETA", "GAMMA"], ["GAMMA", "ALPHA"]), (["BETA"], ["BETA", "GAMMA"]), (["ALPHA", "GAMMA"], ["ALPHA", "BETA", "GAMMA"]), ([], ["ALPHA", "BETA"]))] +
+                             # a phase stable as two composition sets of the same name (miscibility gap): every row with an excluded
+                             # name is removed; 'predefined' with a repeated *alpha* name is left out (which set is meant is undocumented)
+                             [{"mode": "exclude", "arg": ex, "db": 3, "stable": st} for ex, st in ((["GAMMA"], ["GAMMA", "ALPHA", "GAMMA"]), (["GAMMA", "BETA"], ["ALPHA", "GAMMA", "GAMMA"]),
+                                                                                                    (["ALPHA"], ["ALPHA", "ALPHA"]), (["BETA"], ["GAMMA", "ALPHA", "GAMMA"]))] +
+                             [{"mode": "predefined", "arg": "BETA", "db": 3, "stable": ["GAMMA", "BETA", "GAMMA"]}, {"mode": "majority", "arg": None, "db": 3, "stable": ["GAMMA", "GAMMA", "ALPHA"]}] +
                              [{"mode": "majority", "arg": None, "db": 3, "stable": st} for st in (["BETA"], ["GAMMA", "ALPHA"], ["ALPHA", "BETA", "GAMMA"])] +
                              [{"mode": "none", "arg": None, "db": 3, "stable": ["GAMMA", "BETA"]}],
                     "thorough": [{"mode": "predefined", "arg": a, "db": 4, "stable": st} for a in ("ALPHA", "GAMMA") for st in _subsets(4) if len(st) <= 3][::3] +
                                 [{"mode": "exclude", "arg": ex, "db": 4, "stable": st} for ex in (["DELTA"], ["BETA", "DELTA"], ["ALPHA"]) for st in _subsets(4) if len(st) <= 3][::5] +
-                                [{"mode": "majority", "arg": None, "db": 4, "stable": st} for st in _subsets(4) if len(st) <= 3][::4]}),
+                                [{"mode": "majority", "arg": None, "db": 4, "stable": st} for st in _subsets(4) if len(st) <= 3][::4] +
+                                [{"mode": "exclude", "arg": ex, "db": 4, "stable": st} for ex in (["DELTA"], ["BETA", "DELTA"]) for st in
+                                 (["DELTA", "DELTA"], ["DELTA", "ALPHA", "DELTA"], ["BETA", "DELTA", "DELTA"], ["ALPHA", "DELTA", "BETA", "DELTA"], ["BETA", "BETA", "DELTA"])]}),
     Harness("C17.e2e", e2e, functions=_F3 + _F2 + _F1, assumptions=_A2 + ["the point (x, T) is concrete (the cache key truncates to integers); backend values are arbitrary"],
             stubs=["therm.getEq -> workspace stub: MU, composition sets (phase_record.phase_name, NP, X) = uninterpreted functions of (x, T), alphabetical element order; "
                    "stable phases positive amounts normalised to 1, positive X", "kawin.diffusion.DiffusionParameters.mobility_from_composition_set -> uninterpreted positive values per (phase, element, point)",
